@@ -95,6 +95,8 @@ def universe(thorough: bool) -> typing.List[TypeDef]:
                 pre = "" if k == 0 else f"truncated uint{k} p\n"
                 out.append(TypeDef(f"L3{n}{use}k{k}", "L3", f"{pre}NS.{n}.1.0{ue} x\nuint8 tail\n@sealed\n", k == 3 or use == "f", (n,)))
         out.append(TypeDef(f"L3{n}u", "L3", f"@union\nuint8 a\nNS.{n}.1.0 x\nNS.{n}.1.0[<=2] y\n@sealed\n", True, (n,)))
+        # an alternative that is a FIXED-length array of composites (its elements own whatever the composite owns)
+        out.append(TypeDef(f"L3{n}ua", "L3", f"@union\nuint8 a\nNS.{n}.1.0[2] z\nNS.{n}.1.0 x\n@sealed\n", n in ("Ivs", "Ivd", "Ius", "Ifd"), (n,)))
     # depth 3 nesting, delimited inside delimited inside sealed
     out.append(TypeDef("N2", "L3i", "uint8 h\nNS.Ivd.1.0 m\nNS.Iud.1.0[<=2] us\n@extent 400\n", True, ("Ivd", "Iud")))
     out.append(TypeDef("L3N3", "L3", "truncated uint3 p\nNS.N2.1.0 n\nNS.N2.1.0[<=1] ns\nuint8 tail\n@sealed\n", True, ("N2",)))
